@@ -43,7 +43,8 @@ MANIFEST = dict(
 )
 
 IMPORTS = ['Coq.ZArith.ZArith', 'Coq.NArith.NArith', 'Coq.Lists.List', 'Coq.Strings.String', 'SV.Num.Mod360', 'SV.Num.AngleSites',
-           'SV.Num.Dec6', 'SV.Num.Dec6CarveProofs', 'SV.Num.VecText', 'SV.SM.FrozenOps', 'SV.SM.FrozenCopy', 'SV.Gen.AngleSites_gen']
+           'SV.Num.Dec6', 'SV.Num.Dec6CarveProofs', 'SV.Num.VecText', 'SV.SM.FrozenOps', 'SV.SM.FrozenCopy', 'SV.SM.FrozenCopyValue',
+           'SV.Gen.AngleSites_gen']
 PRE = '''Import ListNotations.
 Fixpoint bad_idx {A} (f : A -> bool) (n : N) (l : list A) : list N := match l with [] => [] | x :: r => (if f x then [] else [n]) ++ bad_idx f (n + 1)%N r end.
 Definition t3_eqb (a b : Z * Z * Z) : bool := let '(a1, a2, a3) := a in let '(b1, b2, b3) := b in (Z.eqb a1 b1 && Z.eqb a2 b2 && Z.eqb a3 b3)%bool.
@@ -51,15 +52,29 @@ Fixpoint nl_eqb (a b : list N) : bool := match a, b with [], [] => true | x :: a
 '''
 
 
-def par_eval(ck: Ck, jobs: list[list[str]], name: str, preamble: str) -> list[list[str] | None]:
-    """Several independent coq_eval jobs at once (each in its own scratch directory, distinct names): the chunks of a
-    correspondence are independent `coqc` runs, so on a loaded machine they need not queue behind each other."""
-    from concurrent.futures import ThreadPoolExecutor
-    if len(jobs) <= 1:
-        return [ck.coq_eval(IMPORTS, j, name=name, preamble=preamble) for j in jobs]
-    with ThreadPoolExecutor(max_workers=4) as ex:
-        futs = [ex.submit(ck.coq_eval, IMPORTS, j, f'{name}{i}', 600, preamble) for i, j in enumerate(jobs)]
-        return [f.result() for f in futs]
+class Pending:
+    """A correspondence written as a generator: it prepares its cases, yields (jobs, name, preamble) - independent
+    coq_eval jobs, evaluated here in a thread pool while the caller goes on - and receives the list of their results
+    when finish() is called.  Results are recorded in the order finish() is called, so the run stays deterministic."""
+
+    def __init__(self, ck: Ck, gen, pool):
+        self.gen = gen
+        self.futs = []
+        try:
+            jobs, name, preamble = next(gen)
+        except StopIteration:
+            self.gen = None
+            return
+        self.futs = [pool.submit(ck.coq_eval, IMPORTS, j, f'{name}{i}', 600, preamble) for i, j in enumerate(jobs)]
+
+    def finish(self) -> None:
+        if self.gen is None:
+            return
+        try:
+            self.gen.send([f.result() for f in self.futs])
+        except StopIteration:
+            pass
+        self.gen = None
 
 
 # ------------------------------------------------------------------------------------------------ doubles
@@ -135,7 +150,7 @@ def corr_mod(ck: Ck) -> None:
         lit = coq_list(f'(({"true" if s else "false"}, {m}, ({e})), {t(one)}, {t(two)})' for _, (s, m, e), one, two in part)
         jobs.append(['bad_idx (fun c : (bool * Z * Z) * (Z * Z * Z) * (Z * Z * Z) => let \'(i, one, two) := c in let \'(s, m, e) := i in '
                      f'(t3_eqb (show (pymod360 (mk s m e))) one && t3_eqb (show (double360 (mk s m e))) two)%bool) 0%N ({lit})%Z'])
-    for lo, vals in zip(range(0, len(cases), 500), par_eval(ck, jobs, 'mod360', PRE)):
+    for lo, vals in zip(range(0, len(cases), 500), (yield (jobs, 'mod360', PRE))):
         if vals is None:
             ck.obligation('correspondence:pymod360', False, 'model could not be evaluated')
             ck.tie_broken.append('correspondence pymod360: model evaluation failed')
@@ -195,7 +210,7 @@ def corr_format(ck: Ck) -> None:
         lit = coq_list(f'(({"true" if s else "false"}, {m}%N, ({e})%Z), [{";".join(str(ord(c)) for c in txt)}]%N)' for _, (s, m, e), txt in part)
         jobs.append(['bad_idx (fun c : (bool * N * Z) * list N => let \'(s, m, e) := fst c in '
                      f'nl_eqb (format6 format_float_cfg {{| dneg := s; dm := m; de := e |}}) (snd c)) 0%N {lit}'])
-    for lo, vals in zip(range(0, len(cases), 500), par_eval(ck, jobs, 'format6', PRE)):
+    for lo, vals in zip(range(0, len(cases), 500), (yield (jobs, 'format6', PRE))):
         if vals is None:
             ck.obligation('correspondence:format6', False, 'model could not be evaluated')
             ck.tie_broken.append('correspondence format6: model evaluation failed')
@@ -281,7 +296,7 @@ def corr_parse(ck: Ck) -> None:
         if lo == 0:
             exprs.append('rev (snd (N.iter 70000 (fun p : N * list N => (fst p + 1, if py_space (fst p) then fst p :: snd p else snd p))%N (0%N, [])))')
         jobs.append(exprs)
-    for lo, vals in zip(range(0, len(cases), 500), par_eval(ck, jobs, 'parsevec', pre)):
+    for lo, vals in zip(range(0, len(cases), 500), (yield (jobs, 'parsevec', pre))):
         if vals is None:
             ck.obligation('correspondence:parse_vec_str', False, 'model could not be evaluated')
             ck.tie_broken.append('correspondence parse_vec_str: model evaluation failed')
@@ -667,6 +682,7 @@ def apply_op(op: tuple, regs: list):
 
 
 COPY_OPS = {'copy', 'copy_copy', 'deepcopy', 'pickle', 'freeze', 'thaw', 'ctor_same', 'ctor_frozen'}
+SHAPE_OPS = {'copy', 'copy_copy', 'deepcopy', 'pickle', 'freeze', 'thaw'}       # the methods of Gen copy_shapes
 
 
 def finite_obj(o) -> bool:
@@ -677,13 +693,21 @@ def missing_slots(o) -> list[str]:
     return [s for s in slots_of(o) if not hasattr(o, s)]
 
 
-def run_history(hist: list[tuple]):
-    """Execute a history on real objects. Returns (problems, frames, regs): problems are property violations
-    (key, text, step); frames record for every executed op (classes, census method, receiver, args, changed registers)."""
-    regs: list = []
-    problems: list[tuple[str, str, int]] = []
-    frames: list[dict] = []
-    for step, op in enumerate(hist):
+class HistRunner:
+    """Executes a history on real objects one operation at a time.  problems are property violations (key, text, step);
+    frames record for every executed op (classes, census method, receiver, args, changed registers)."""
+
+    def __init__(self) -> None:
+        self.regs: list = []
+        self.problems: list[tuple[str, str, int]] = []
+        self.frames: list[dict] = []
+        self.n = 0
+
+    def step(self, op: tuple) -> None:
+        regs, problems, frames, step = self.regs, self.problems, self.frames, self.n
+        self.n += 1
+        if problems:
+            return
         before = [snap(o) for o in regs]
         try:
             with warnings.catch_warnings():
@@ -692,7 +716,7 @@ def run_history(hist: list[tuple]):
         except (TypeError, AttributeError, ValueError, ZeroDivisionError, KeyError, NotImplementedError, OverflowError, ArithmeticError):
             res = ('<raised>', op[1], [], [])
         if res is None:
-            continue
+            return
         meth, recv, args, out = res
         after = [snap(o) for o in regs]
         changed = [i for i, (p, q) in enumerate(zip(before, after)) if p != q]
@@ -713,6 +737,9 @@ def run_history(hist: list[tuple]):
                 res_is = 'same' if out[0] is regs[src_i] else 'new'
         frames.append({'op': op[0], 'meth': meth, 'recv': recv, 'args': args, 'changed': changed, 'classes': [type(o).__name__ for o in regs[:nregs]],
                        'res_is': res_is, 'res_cls': type(out[0]).__name__ if out else None})
+        if op[0] in SHAPE_OPS and recv is not None and recv < nregs and out and not missing_slots(out[0]) and finite_obj(out[0]):
+            frames[-1]['src_raw'] = {s: getattr(regs[recv], s) for s in slots_of(regs[recv])}
+            frames[-1]['dst_raw'] = {s: getattr(out[0], s) for s in slots_of(out[0])}
         # (b) frozen values never change; nothing but a mutable receiver is written
         for i in changed:
             cls = before[i][0]
@@ -742,9 +769,16 @@ def run_history(hist: list[tuple]):
                 # observation through the public properties must agree with the slots
                 if (o.pitch, o.yaw, o.roll) != (o._pitch, o._yaw, o._roll):
                     problems.append(('angle-property-differs-from-slot', repr(o), step))
-        if problems:
+
+
+def run_history(hist: list[tuple]):
+    """Execute a history on real objects. Returns (problems, frames, regs)."""
+    r = HistRunner()
+    for op in hist:
+        r.step(op)
+        if r.problems:
             break
-    return problems, frames, regs
+    return r.problems, r.frames, r.regs
 
 
 TO_ANGLE_OPS = {'mat_to_angle', 'ang_from_basis', 'matmul', 'imatmul', 'transform', 'tuple_matmul', 'vec_to_angle'}
@@ -797,13 +831,14 @@ def search_histories(ck: Ck) -> list[dict]:
             hist = []
             regs_n = 0
             length = ck.rng.choice([4, 8, 14, 24])
-            sim: list = []
+            runner = HistRunner()
             for _ in range(length):
                 hist.append(gen_op(ck.rng, [None] * max(regs_n, 1)) if regs_n else gen_op(ck.rng, []))
-                problems, frames, regs = run_history(hist)
-                regs_n = len(regs)
-                if problems:
+                runner.step(hist[-1])
+                regs_n = len(runner.regs)
+                if runner.problems:
                     break
+            problems, frames, regs = runner.problems, runner.frames, runner.regs
         ck.count('histories')
         for f in frames:
             ck.hist('history_ops', f['op'])
@@ -841,7 +876,7 @@ def corr_frames(ck: Ck, frames: list[dict]) -> None:
                                                  coq_list(str(i) for i in f['args']), coq_list(str(i) for i in f['changed'])) for f in part)
         jobs.append(['bad_idx (fun c : list (string * nat) * string * nat * list nat * list nat => let \'(st, m, r, ar, ch) := c in '
                      'forallb (may_write nat mut_events st {| meth := m; recv := r; args := ar |}) ch) 0%N (' + lit + ')%nat'])
-    for lo, vals in zip(range(0, len(frames), 500), par_eval(ck, jobs, 'frames', PRE + 'Open Scope string_scope.\n')):
+    for lo, vals in zip(range(0, len(frames), 500), (yield (jobs, 'frames', PRE + 'Open Scope string_scope.\n'))):
         part = frames[lo:lo + 500]
         if vals is None:
             ck.obligation('correspondence:frames', False, 'model could not be evaluated')
@@ -886,6 +921,49 @@ def corr_results(ck: Ck, frames: list[dict], side: dict) -> None:
     if bad or not n:
         ck.tie_broken.append('correspondence results (result_kinds vs real objects)')
         ck.extra['result_disagreement'] = bad[:5]
+
+
+def corr_shapes(ck: Ck, frames: list[dict], side: dict) -> None:
+    """The slot transfer the translator computed for each copy-like method (Gen copy_shapes, SM/FrozenCopyValue.v
+    `built`) against the objects the implementation returned: class of the result, and every slot bit for bit - the
+    source slot itself for TId/TFloat, `v % 360.0 % 360.0` for TNorm360 (that operator is tied to Num/Mod360.v by
+    correspondence:pymod360)."""
+    table = {(c, m): (rc, t) for c, m, rc, t in side.get('copy_shapes', [])}
+    bad = []
+    n = 0
+    for f in frames:
+        if 'src_raw' not in f:
+            continue
+        cls = f['classes'][f['recv']]
+        ent = table.get((cls, f['meth']))
+        n += 1
+        ck.count('shape_cases')
+        ck.hist('copy_shape_checked', f'{cls}.{f["meth"]}')
+        if ent is None:
+            bad.append({'class': cls, 'method': f['meth'], 'model': 'no entry'})
+            continue
+        rc, term = ent
+        if f['res_cls'] != rc:
+            bad.append({'class': cls, 'method': f['meth'], 'model_result_class': rc, 'implementation': f['res_cls']})
+            continue
+        if term == 'CSelf':
+            if f['res_is'] != 'same':
+                bad.append({'class': cls, 'method': f['meth'], 'model': 'CSelf', 'implementation': f['res_is']})
+            continue
+        if term == 'CUnknown':
+            continue            # no prediction (the instance obligation fails)
+        exp = {}
+        for d, sl, x in re.findall(r'\("(\w+)", "(\w+)", (\w+)\)', term):
+            v = f['src_raw'][sl]
+            exp[d] = v % 360.0 % 360.0 if x == 'TNorm360' else v
+        got = f['dst_raw']
+        if set(exp) != set(got) or any(exp[k].hex() != got[k].hex() for k in exp):
+            bad.append({'class': cls, 'method': f['meth'], 'model': {k: v.hex() for k, v in exp.items()}, 'implementation': {k: v.hex() for k, v in got.items()}})
+    ck.obligation('correspondence:copy_shapes', n > 0 and not bad,
+                  f'{n} executed copy / __copy__ / __deepcopy__ / pickle / freeze / thaw calls: result class and every slot bit for bit vs Gen copy_shapes: {len(bad)} disagreements')
+    if bad or not n:
+        ck.tie_broken.append('correspondence copy_shapes (slot transfer vs real objects)')
+        ck.extra['copy_shape_disagreement'] = bad[:5]
 
 
 # ------------------------------------------------------------------------------------------------ direct oracles
@@ -955,39 +1033,50 @@ def theorems_with_axioms(ck: Ck, props_file: str = 'Props/C05.v'):
 
 
 def _theorems_job(ck: Ck, props_file: str):
+    """Print Assumptions walks the whole dependency cone again for every statement (seconds each below Flocq/Reals):
+    the statements are dealt round-robin to four coqc processes and the blocks are put back in source order."""
+    from concurrent.futures import ThreadPoolExecutor
     from harness.common import ROCQ
     names = re.findall(r'^\s*(?:Theorem|Lemma|Corollary)\s+([A-Za-z0-9_\']+)', (ROCQ / props_file).read_text(), re.M)
-    body = 'Require Import SV.Props.C05.\n' + ''.join(f'Print Assumptions {n}.\n' for n in names)
-    try:
-        rc, out = ck.coq_scratch(body, 'assumptions_full')
-    except Exception as e:          # noqa: BLE001 - reported as a failed obligation
-        rc, out = 1, repr(e)
-    return names, rc, out
+    parts = [names[i::4] for i in range(4)]
+
+    def one(i: int):
+        body = 'Require Import SV.Props.C05.\n' + ''.join(f'Print Assumptions {n}.\n' for n in parts[i])
+        try:
+            return ck.coq_scratch(body, f'assumptions_full{i}')
+        except Exception as e:          # noqa: BLE001 - reported as a failed obligation
+            return 1, repr(e)
+    with ThreadPoolExecutor(max_workers=4) as ex:
+        res = list(ex.map(one, range(4)))
+    return names, parts, res
 
 
-def _theorems_record(ck: Ck, props_file: str, names: list[str], rc: int, out: str) -> None:
+def _theorems_record(ck: Ck, props_file: str, names: list[str], parts: list[list[str]], res: list[tuple[int, str]]) -> None:
     """Same job as Ck.theorems() - one `theorem:<name>` obligation per statement of the Props file with its Print
     Assumptions result - with a parser that also understands axioms whose type is printed on the following line (the
-    Reals axioms are).  Done once here instead of calling Ck.theorems() and then repairing its axiom lists: Print
-    Assumptions through Flocq/Reals costs ~20 s per pass (helper local to this check)."""
-    if rc != 0:
-        ck.obligation(f'assumptions:{props_file}', False, out[-2000:])
-        ck.tie_broken.append(f'Print Assumptions failed for {props_file}')
-        return
-    blocks: list[list[str]] = []
-    for line in out.splitlines():
-        if line.startswith('Closed under the global context'):
-            blocks.append([])
-        elif line.startswith('Axioms:'):
-            blocks.append([])
-        elif blocks and line and not line[0].isspace():
-            m = re.match(r"([A-Za-z_][A-Za-z0-9_.']*)", line)
-            if m:
-                blocks[-1].append(m.group(1))
-    if len(blocks) != len(names):
-        ck.obligation(f'assumptions:{props_file}', False, f'{len(names)} statements but {len(blocks)} Print Assumptions blocks')
-        ck.tie_broken.append(f'Print Assumptions output not understood for {props_file}')
-        return
+    Reals axioms are)."""
+    by_name: dict[str, list[str]] = {}
+    for part, (rc, out) in zip(parts, res):
+        if rc != 0:
+            ck.obligation(f'assumptions:{props_file}', False, out[-2000:])
+            ck.tie_broken.append(f'Print Assumptions failed for {props_file}')
+            return
+        blocks: list[list[str]] = []
+        for line in out.splitlines():
+            if line.startswith('Closed under the global context'):
+                blocks.append([])
+            elif line.startswith('Axioms:'):
+                blocks.append([])
+            elif blocks and line and not line[0].isspace():
+                m = re.match(r"([A-Za-z_][A-Za-z0-9_.']*)", line)
+                if m:
+                    blocks[-1].append(m.group(1))
+        if len(blocks) != len(part):
+            ck.obligation(f'assumptions:{props_file}', False, f'{len(part)} statements but {len(blocks)} Print Assumptions blocks')
+            ck.tie_broken.append(f'Print Assumptions output not understood for {props_file}')
+            return
+        by_name.update(zip(part, blocks))
+    blocks = [by_name[n] for n in names]
     allowed = {'ClassicalDedekindReals.sig_forall_dec', 'ClassicalDedekindReals.sig_not_dec', 'FunctionalExtensionality.functional_extensionality_dep',
                'Classical_Prop.classic'}
     for n, b in zip(names, blocks):
@@ -1043,25 +1132,40 @@ def run(ck: Ck) -> None:
             'copy_results_new_or_frozen_self': 'copy_results_ok result_kinds',
             'copy_protocol_present_on_all_six_classes': 'copy_methods_present result_kinds',
             'copy_methods_write_nothing': 'no_copy_events mut_events',
+            'copy_shapes_keep_every_slot_value': 'copy_shapes_ok copy_shapes',
+            'copy_shapes_agree_with_result_kinds': 'shapes_agree result_kinds copy_shapes',
+            'census_fresh_by_name_justified': 'fresh_names_ok fresh_by_name',
             'no_write_through_unknown_or_aliased_object': 'forallb (fun e : mut_event => match snd (fst e) with Unknown | MaybeAlias | Param => helper (snd (fst (fst e))) | _ => true end) mut_events',
         })
         if not all(res.values()):      # a premise of the theorems no longer holds for today's source: escalate the search
             ck.tie_broken.append('instance obligations failed: ' + ', '.join(k for k, ok in res.items() if not ok))
-        v = ck.coq_eval(IMPORTS, ['bad_events no_carve mut_events', 'bad_results result_kinds', 'bad_creations angle_creations', 'neg_zero_fix format_float_cfg'], name='info', preamble='Import ListNotations.')
+    from concurrent.futures import ThreadPoolExecutor
+    with ThreadPoolExecutor(max_workers=8) as pool:
+        # the model evaluations (coqc processes) run in the pool while the searches on the implementation run here
+        pend = [Pending(ck, g(ck), pool) for g in (corr_mod, corr_format, corr_parse)] if built else []
+        info = pool.submit(ck.coq_eval, IMPORTS, ['bad_events no_carve mut_events', 'bad_results result_kinds', 'bad_creations angle_creations',
+                                                  'neg_zero_fix format_float_cfg', 'bad_shapes copy_shapes'], 'info', 600, 'Import ListNotations.') if built else None
+        escalated = bool(ck.tie_broken)
+        frames = search_histories(ck)
+        if built:
+            pend.append(Pending(ck, corr_frames(ck, frames), pool))
+            corr_results(ck, frames, side)
+            corr_shapes(ck, frames, side)
+        search_to_angle(ck)
+        search_text(ck)
+        for p in pend:
+            p.finish()
+        v = info.result() if info is not None else None
         if v:
-            ck.extra['offending_census_entries'] = {'mut_events': v[0], 'result_kinds': v[1], 'angle_creations': v[2]}
+            ck.extra['offending_census_entries'] = {'mut_events': v[0], 'result_kinds': v[1], 'angle_creations': v[2], 'copy_shapes': v[4]}
             ck.extra['format_float_has_negative_zero_repair (carve-out of c05_format6_shape empty when true)'] = v[3]
-        corr_mod(ck)
-        corr_format(ck)
-        corr_parse(ck)
-    frames = search_histories(ck)
-    if built:
-        corr_frames(ck, frames)
-        corr_results(ck, frames, side)
-    search_to_angle(ck)
-    search_text(ck)
-    if finish_theorems is not None:
-        finish_theorems()
+        if finish_theorems is not None:
+            finish_theorems()
+    if ck.tie_broken and not escalated:
+        # a correspondence failed after the searches had run with the small budget: search again with the escalated one
+        search_histories(ck)
+        search_to_angle(ck)
+        search_text(ck)
     explain_failures(ck)
 
 
@@ -1093,10 +1197,12 @@ def explain_failures(ck: Ck) -> None:
     if any(k.startswith(('frozen-', 'frozenmatrix-', 'non-receiver-')) for k in keys):
         ck.explain('instance:mutation_census_ok')
         ck.explain('instance:no_write_through_unknown_or_aliased_object')
+        ck.explain('instance:census_fresh_by_name_justified')
         ck.explain('correspondence:frames')
     if any(k.startswith(('copy-is-same-object', 'copy-not-equal', 'source-changed-by')) for k in keys):
         ck.explain('instance:copy_')
         ck.explain('correspondence:results')
+        ck.explain('correspondence:copy_shapes')
 
 
 def replay(data: dict) -> int:
